@@ -175,6 +175,7 @@ func textAt(src []byte, k int, t gtok) bool {
 	return hasPrefixAt(src, k, t.tok.String())
 }
 
+var rePanicInner = regexp.MustCompile(`interface \{\} is (\S+), not \*ast\.PositionError`)
 var reDanglingLF = regexp.MustCompile(`^[eE][+-]?\n`)
 var reDanglingCR = regexp.MustCompile(`^[eE][+-]?\r`)
 var reSrcDanglingLF = regexp.MustCompile(`[0-9.][eE][+-]?\n`)
@@ -300,13 +301,38 @@ type parseResult struct {
 	isPE     bool
 }
 
-func parseImpl(src []byte) (r parseResult) {
+func parseImpl(src []byte) (r parseResult) { return parseImplCfg(src, false) }
+
+// panicKind: which kind of Go panic escaped (part of the failure class)
+func panicKind(v any) string {
+	msg := fmt.Sprint(v)
+	// ParseProgram's recover re-asserts the recovered value: a foreign panic surfaces as
+	// "interface conversion: interface {} is <its type>, not *ast.PositionError"
+	if m := rePanicInner.FindStringSubmatch(msg); m != nil {
+		return strings.TrimPrefix(m[1], "*")
+	}
+	for _, k := range [][2]string{{"interface conversion", "interface-conversion"}, {"index out of range", "index-out-of-range"},
+		{"slice bounds out of range", "slice-out-of-range"}, {"nil pointer", "nil-dereference"}, {"regexp: Compile", "regexp-mustcompile"},
+		{"nil map", "nil-map"}, {"divide by zero", "divide-by-zero"}, {"stack overflow", "stack-overflow"}} {
+		if strings.Contains(msg, k[0]) {
+			return k[1]
+		}
+	}
+	return "other"
+}
+
+// parseImplCfg: ParseProgram under recover; funcs = offer the native functions of resolve.go
+func parseImplCfg(src []byte, funcs bool) (r parseResult) {
 	defer func() {
 		if v := recover(); v != nil {
 			r.panicVal = v
 		}
 	}()
-	_, err := parser.ParseProgram(src, nil)
+	var cfg *parser.ParserConfig
+	if funcs {
+		cfg = &parser.ParserConfig{Funcs: nativeFuncs}
+	}
+	_, err := parser.ParseProgram(src, cfg)
 	r.err = err
 	if pe, ok := err.(*parser.ParseError); ok {
 		r.isPE, r.pos = true, pe.Position
@@ -315,9 +341,13 @@ func parseImpl(src []byte) (r parseResult) {
 }
 
 func checkParse(src []byte, origin string, rep *hx.Report) parseResult {
-	r := parseImpl(src)
+	return checkParseCfg(src, false, origin, rep)
+}
+
+func checkParseCfg(src []byte, funcs bool, origin string, rep *hx.Report) parseResult {
+	r := parseImplCfg(src, funcs)
 	detail := func(extra map[string]any) map[string]any {
-		d := map[string]any{"kind": "parse", "src_hex": hx.Hex(src), "origin": origin}
+		d := map[string]any{"kind": "parse", "src_hex": hx.Hex(src), "origin": origin, "native_funcs": funcs}
 		if len(src) <= 400 {
 			d["src"] = strconv.Quote(string(src))
 		}
@@ -327,7 +357,7 @@ func checkParse(src []byte, origin string, rep *hx.Report) parseResult {
 		return d
 	}
 	if r.panicVal != nil {
-		rep.Fail(hx.Failure{Class: "parse-panic", Oracle: "ParseProgram returns a program or a parse error, never panics",
+		rep.Fail(hx.Failure{Class: "parse-panic:" + panicKind(r.panicVal), Oracle: "ParseProgram returns a program or a parse error, never panics",
 			Detail: detail(map[string]any{"panic": fmt.Sprint(r.panicVal)})})
 		return r
 	}
@@ -724,7 +754,7 @@ func replay(o hx.Opts) {
 		fmt.Println()
 		checkLex(src, mode, toks, panicked, "replay", rep)
 	case "parse":
-		r := checkParse(src, "replay", rep)
+		r := checkParseCfg(src, d["native_funcs"] == true, "replay", rep)
 		fmt.Printf("ParseProgram: panic=%v err=%v\n", r.panicVal, r.err)
 	case "cli":
 		buildCLI(rep)
@@ -755,7 +785,7 @@ func main() {
 	}
 	rep := hx.NewReport("C03", o.Seed, o.Tier)
 	thorough := o.Tier == "thorough"
-	rep.Rule = "lexer streams: every string of length <= 3 (quick) / 4 (thorough) over a 25-symbol lexical alphabet (modes: never ScanRegex; always after '/' when the string has a '/'), token soups, the repository's test programs (testdata, interp/parser/lexer tests) plain and mutated (truncation, CRLF, stray CR, line continuations, dangling-exponent numbers at line ends, deletions, hostile insertions), each in one of three ScanRegex modes; distinct = distinct model request; non-trivial = non-empty source. Search: independent offset->line/column map vs every reported token; ParseProgram under recover on the same sources plus fragment soups and byte soups up to 32 KiB; goawk binary on a sample of non-parsing sources"
+	rep.Rule = "lexer streams: every string of length <= 3 (quick) / 4 (thorough) over a 25-symbol lexical alphabet (modes: never ScanRegex; always after '/' when the string has a '/'), token soups, the repository's test programs (testdata, interp/parser/lexer tests) plain and mutated (truncation, CRLF, stray CR, line continuations, dangling-exponent numbers at line ends, deletions, hostile insertions), each in one of three ScanRegex modes; distinct = distinct model request; non-trivial = non-empty source. Search: independent offset->line/column map vs every reported token; ParseProgram under recover on the same sources plus fragment soups and byte soups up to 32 KiB; goawk binary on a sample of non-parsing sources; plus a family of syntactically valid programs that reach the resolver and the compiler (user functions x parameter roles x ~120 argument shapes incl. parenthesised variables, specials, native functions, undefined functions, wrong arity; every builtin array/lvalue slot x every argument shape; ~60 regex bodies incl. invalid syntax and non-UTF-8 bytes x ~40 regex sites), parsed with native functions configured: verdict must be a Program or a ParseError with an existing position"
 	r := hx.NewRand(o.Seed)
 	corpus := loadCorpus(rep)
 
@@ -879,6 +909,30 @@ func main() {
 			erroring = append(erroring, i)
 		}
 	}
+	// 4b. programs that reach the resolver and the compiler (resolve.go)
+	resCases := systematicResolve()
+	nres := 6000
+	if thorough {
+		nres = 300000
+	}
+	for i := 0; i < nres; i++ {
+		resCases = append(resCases, randomResolve(r))
+	}
+	accepted := 0
+	for i, c := range resCases {
+		rep.SearchEvals++
+		rep.Count("parse:" + strings.SplitN(c.origin, ":", 2)[0])
+		pr := checkParseCfg([]byte(c.src), true, c.origin, rep)
+		if pr.panicVal == nil && pr.err == nil {
+			accepted++
+		}
+		if (pr.panicVal != nil || pr.err != nil) && i%7 == 0 {
+			parseOnly = append(parseOnly, []byte(c.src))
+			parseOrigins = append(parseOrigins, c.origin)
+			erroring = append(erroring, len(parseOnly)-1)
+		}
+	}
+	rep.Hist["parse:resolve-family-accepted"] = accepted
 	rep.Hist["parse:erroring"] = len(erroring)
 	fmt.Fprintln(os.Stderr, "parse cases", len(parseOnly), time.Since(t0))
 
